@@ -374,13 +374,21 @@ func scaledInput(family string, n int) string {
 		for i := 0; i < n/6; i++ {
 			fmt.Fprintf(&sb, "\tJMP b%d\n\tRESB 120\nb%d:\n", i, i)
 		}
+	case "equdouble":
+		// A(i) EQU A(i-1)+A(i-1) over a label: the stored bodies stay references, so a use re-expands them
+		depth := n / 250 // 1000 -> 4, 3000 -> 12, 10000 -> 40, 30000 -> 120
+		sb.WriteString("l0:\nA0\tEQU\tl0\n")
+		for i := 1; i <= depth; i++ {
+			fmt.Fprintf(&sb, "A%d\tEQU\tA%d+A%d\n", i, i-1, i-1)
+		}
+		fmt.Fprintf(&sb, "\tMOV AX,A%d\n", depth)
 	case "longline":
 		sb.WriteString("\tMOV AX," + strings.Repeat("1+", n/2) + "1 ; " + strings.Repeat("x", n) + "\n")
 	}
 	return sb.String()
 }
 
-var scaleFamilies = []string{"statements", "dblist", "parens", "sum", "labels", "equs", "branches", "longline"}
+var scaleFamilies = []string{"statements", "dblist", "parens", "sum", "labels", "equs", "branches", "longline", "equdouble"}
 
 var propC13 = &Prop[CrashCase]{
 	ID:     "C13",
@@ -398,6 +406,32 @@ var propC13 = &Prop[CrashCase]{
 			zero := rapid.SampledFrom([]string{"", "", "/0", "/(1-1)", "%(2-2)", "/qz", "%qz", "/$", "*0x7fffffffffffffff", "-9223372036854775807-1", "/(qz*5)"}).Draw(t, "zero")
 			text := ec.E.Render() + zero
 			return CrashCase{Src: ec.header() + "qz\tEQU\t0\n" + ec.equLines() + ec.stmt(text, false, 0), Kind: "expr"}
+		}
+		if rapid.IntRange(0, 7).Draw(t, "equfam") == 0 {
+			// EQU graphs: bodies over other names (defined earlier, later, or themselves), plain or wrapped
+			// in a memory operand / far pointer, then uses of the names in several kinds of statement
+			k := rapid.IntRange(1, 5).Draw(t, "equn")
+			var sb strings.Builder
+			sb.WriteString("lab0:\n\tNOP\n")
+			for i := 0; i < k; i++ {
+				a := rapid.IntRange(0, k).Draw(t, "equref")
+				b := rapid.IntRange(0, k).Draw(t, "equref2")
+				ref := func(j int) string {
+					if j == k {
+						return rapid.SampledFrom([]string{"lab0", "7", "$"}).Draw(t, "equleaf")
+					}
+					return fmt.Sprintf("E%d", j)
+				}
+				body := rapid.SampledFrom([]string{"%s", "%s+1", "%s*2", "%s+%s", "%s-%s", "[%s]", "[%s+4]", "8:%s", "(%s)", "%s/%s", "WORD [%s]"}).Draw(t, "equform")
+				n := strings.Count(body, "%s")
+				args := []any{ref(a), ref(b)}[:n]
+				fmt.Fprintf(&sb, "E%d\tEQU\t%s\n", i, fmt.Sprintf(body, args...))
+			}
+			for j := rapid.IntRange(1, 4).Draw(t, "equuses"); j > 0; j-- {
+				use := rapid.SampledFrom([]string{"\tMOV AX,%s\n", "\tDW %s\n", "\tDB %s,1\n", "\tJMP %s\n", "\tMOV AX,[%s]\n", "\tADD BX,%s+1\n", "\tRESB %s\n", "\tPUSH %s\n", "\tCALL %s\n"}).Draw(t, "equuse")
+				fmt.Fprintf(&sb, use, fmt.Sprintf("E%d", rapid.IntRange(0, k-1).Draw(t, "equusen")))
+			}
+			return CrashCase{Src: sb.String(), Kind: "equgraph"}
 		}
 		var lines []LLine
 		switch rapid.IntRange(0, 4).Draw(t, "base") {
